@@ -7,8 +7,9 @@ SumTo(f, n) == IF n = 0 THEN 0 ELSE f[n] + SumTo(f, n - 1)
 Bound == ntok <= MaxTok /\ SumTo(sent, nin) <= MaxSent
 View  == full                      \* obs / nobs are observations, not state
 CTexts == {}
-OpsT3 == {"unreg", "kill"}
-OpsQ == {"refuse", "unreg", "relist", "kill"}
+OpsT3 == {"unreg"}
+OpsQ == {"refuse", "unreg", "relist"}
+OpsT == {"refuse", "idle", "unreg", "table", "relist", "kill"}
 OpsP == {"unreg", "direct", "idle"}
 CHRs2 == {<<1, 0>>, <<-1, 0>>}
 OpsAll == {"refuse", "idle", "unreg", "table", "relist", "kill", "direct"}
